@@ -103,7 +103,8 @@ def cases(ctx):
         for s in gen.exhaustive_dfas(n, Sg):
             yield {'kind': 'd2r', 'D': s}
     for i in range(250 if not thorough else 3000):
-        s = gen.random_dfa(rng, 5, rng.choice([['a', 'b'], ['a'], ['a', 'b', 'c'], ['0', '1']]))
+        s = gen.random_dfa(rng, 5, rng.choice([['a', 'b'], ['a'], ['a', 'b', 'c'], ['0', '1']]),
+                           (lambda j: ['start', 'accept', 'start1', 'accept1', 'q'][j]) if i % 6 == 1 else None)
         if not thorough or ctx.mine(i):
             yield {'kind': 'd2r', 'D': s}
 
